@@ -46,9 +46,9 @@ Proof.
 Qed.
 Print Assumptions C09_accepted_histories.
 
-(* what is not proved yet: the wake of the last completion happens in the same instant as that
-   completion (level-2 timing statement; enforced on every implementation history by acceptance
-   at level 2: the clock may only jump when the model is quiescent) *)
+(* timing: the wake that reports the last completion happens in the same instant as that
+   completion -- the clock may only move when no finished task is unreported (level 2; acceptance
+   at level 2 enforces the same on every implementation history) *)
 Definition C09_timing_full_statement : Prop :=
   forall c h s t, wf c = true -> Reach 2 c h s ->
     step 2 c s (ETick t) <> None ->
